@@ -57,6 +57,33 @@ def parse_res(x):
     return r
 
 
+def split_multi(x):
+    """the observation of a multi([...]) command -> one Res per goal (records are
+    cut after each status record)"""
+    a = pool.abnormal_sig(x)
+    if a:
+        r = Res()
+        r.abn = a
+        return [r]
+    text, recs = terms.parse_records(x.get("o", ""))
+    out, cur = [], Res()
+    for kind, payload in recs:
+        if kind == "S":
+            cur.sols.append(terms.bindings(payload))
+        elif kind == "O":
+            cur.obs.append(payload)
+        elif kind == "E":
+            cur.status = payload
+            out.append(cur)
+            cur = Res()
+        elif kind == "X":
+            cur.status = "exc"
+            cur.exc = payload
+            out.append(cur)
+            cur = Res()
+    return out
+
+
 def run_goals(worker, texts, chunk=400):
     """texts: driver command texts (without the final ' .'). -> [Res]"""
     out = []
@@ -111,7 +138,7 @@ class ShardAcc:
     def violation(self, sig, case, expected=None, observed=None):
         self.nviol += 1
         self._per_sig[sig] += 1
-        if self._per_sig[sig] <= 3 and len(self.violations) < self.max_viol:
+        if self._per_sig[sig] == 1 or (self._per_sig[sig] <= 3 and len(self.violations) < self.max_viol):
             self.violations.append({"sig": sig, "case": case,
                                     "expected": _j(expected), "observed": _j(observed)})
 
